@@ -375,6 +375,22 @@ def c04(repo, res):
             for x in ast.walk(loop):
                 if isinstance(x, (ast.Continue, ast.Break)) and x.lineno < h.lineno:
                     early.append(x)
+        # ... and that loop runs over *all* sensors: enumerate(sensors) / sensors / range(len(sensors)), not a conditional or filtered subset
+        full_iter = False
+        if loop is not None:
+            it = loop.iter
+            if isinstance(it, ast.Call) and getattr(it.func, "id", "") == "enumerate" and it.args:
+                it = it.args[0]
+            t_it = ast.unparse(it)
+            # the list of all sensors is what check_format_input_observers returned first; its length may have been given a name
+            svars = {t.elts[0].id for a_ in ast.walk(node) if isinstance(a_, ast.Assign) and isinstance(a_.value, ast.Call)
+                     and getattr(a_.value.func, "id", "") == "check_format_input_observers" for t in a_.targets
+                     if isinstance(t, ast.Tuple) and t.elts and isinstance(t.elts[0], ast.Name)}
+            nvars = {t.id for a_ in ast.walk(node) if isinstance(a_, ast.Assign) and ast.unparse(a_.value) in {f"len({v})" for v in svars}
+                     for t in a_.targets if isinstance(t, ast.Name)}
+            full_iter = t_it in svars or t_it in {f"list({v})" for v in svars} | {f"range(len({v}))" for v in svars} | {f"range({v})" for v in nvars}
+            if not full_iter:
+                chain.append(f"loop over `{t_it}` instead of all sensors")
         ok7 = not chain and not early and loop is not None
         res.ob("F7:handedness flip reached for every sensor", ok7, {"rule": "F7", "enclosing_conditions": chain, "early_loop_exits_before_it": len(early)})
         if not ok7:
@@ -511,6 +527,29 @@ def path_quantifier_rule(res, fn, rel, fname, rule="F5"):
                 whole += 1
         if whole + indexed == 0:
             continue
+        # the predicate decides a *fast path that skips the rotation*: it has to be exact.  A tolerance (allclose/isclose), a
+        # non-injective wrapper (abs, round, ..) or the projection on one quaternion component between the path and the comparison
+        # lets a really rotated/rotating sensor pass as unrotated/static
+        LOSSY = ("abs", "fabs", "absolute", "round", "around", "rint", "floor", "ceil", "sign", "trunc", "square", "clip")
+        why = None
+        if isinstance(n, ast.Call) and n.func.attr in ("allclose", "isclose"):
+            why = f"tolerance based comparison np.{n.func.attr}"
+        for x in ast.walk(n):
+            hit = (isinstance(x, ast.Name) and (x.id in pvars or x.id in gens)) or (is_path_expr(x) and "as_quat" in ast.unparse(x) and isinstance(x, ast.Call))
+            if not hit:
+                continue
+            p = parents.get(id(x))
+            while p is not None and p is not n:
+                if isinstance(p, ast.Call) and (getattr(p.func, "attr", None) or getattr(p.func, "id", "")) in LOSSY:
+                    why = why or f"the path goes through {norm(p.func)}() before it is compared"
+                if isinstance(p, ast.Subscript) and isinstance(p.slice, ast.Tuple) and len(p.slice.elts) == 2 and isinstance(p.slice.elts[0], ast.Slice) \
+                        and isinstance(p.slice.elts[1], (ast.Constant, ast.UnaryOp)):
+                    why = why or "only one component of each quaternion is inspected"
+                p = parents.get(id(p))
+        if why:
+            res.ob(f"{rule}b:{fname}:{norm(n)}", False)
+            res.add(Finding(f"{rule}:lossy-path", rel, fname, n, f"{why}: distinct orientations can compare equal, so a (slightly) rotated or rotating "
+                            "sensor path is classified as unrotated/static and its field is not rotated into the sensor frame", n.lineno))
         n_dec += 1
         ok = whole >= 1
         res.ob(f"{rule}:{fname}:{norm(n)}", ok, {"rule": rule, "function": fname, "predicate": norm(n), "whole_path_operands": whole, "constant_indexed_operands": indexed})
